@@ -351,15 +351,28 @@ impl<'a> JsStr<'a> {
             }
 
             // Slow path
-            let mut value: f64 = 0.0;
+            // Accumulate the 64 most significant bits in `value`, count the following bits
+            // in `exponent` and set the lowest bit of `value` if any of them is set (round
+            // to odd), so that the conversion to `f64` rounds the whole integer only once.
+            let bits = base.trailing_zeros();
+            let mut value: u64 = 0;
+            let mut exponent: i32 = 0;
             for c in s {
                 if let Some(digit) = char::from(c).to_digit(base) {
-                    value = value.mul_add(f64::from(base), f64::from(digit));
+                    let room = value.leading_zeros().min(bits);
+                    let rest = bits - room;
+                    value = value << room | u64::from(digit >> rest);
+                    if digit & ((1 << rest) - 1) != 0 {
+                        value |= 1;
+                    }
+                    exponent = exponent.saturating_add_unsigned(rest);
                 } else {
                     return f64::NAN;
                 }
             }
-            return value;
+            // The rounding of this cast is the intended one.
+            #[allow(clippy::cast_precision_loss)]
+            return value as f64 * 2f64.powi(exponent);
         }
 
         fast_float2::parse(string).unwrap_or(f64::NAN)
